@@ -94,6 +94,40 @@ def run(ctx):
     _check_encoding(ctx, fit, prog.func(FH))
     _check_prediction(ctx, prog.func("mokapot.model.Model.decision_function"),
                       fit)
+    _check_label_thresholds(ctx, fit)
+
+
+def _check_label_thresholds(ctx, fit):
+    """Positives are the targets accepted at the TRAINING FDR in the score's
+    own direction: in Model.fit, in the starting labels and in the search
+    for the best feature (the latter two shared with C07a)."""
+    prog = ctx.prog
+    T = Terms(DefUse(prog, fit))
+    TRAIN = ("attr", ("param", "self"), "train_fdr")
+    n = 0
+    for c in ast.walk(fit.node):
+        if isinstance(c, ast.Call) and isinstance(c.func, ast.Attribute) \
+                and c.func.attr == "_update_labels":
+            n += 1
+            t = T.of(c)
+            kws = dict(t[4])
+            fdr = kws.get("eval_fdr", t[3][1] if len(t[3]) > 1 else None)
+            desc = kws.get("desc", t[3][2] if len(t[3]) > 2 else
+                           ("const", True))
+            ctx.check(fdr == TRAIN and desc == ("const", True),
+                      "C12b-positives-at-train-fdr", fit,
+                      "labels of an iteration = targets accepted at "
+                      "train_fdr under the current (higher = better) "
+                      "scores",
+                      f"_update_labels(eval_fdr={show(fdr, 40) if fdr else 'default 0.01'}"
+                      f", desc={show(desc, 20)})", node=c)
+    ctx.floor("C12b-update-labels-in-fit", n, 1)
+    from .c07 import _best_feature_loop, _starting_labels
+    _starting_labels(ctx, prog.func("mokapot.model._get_starting_labels"),
+                     fit)
+    for q in ("mokapot.dataset.PsmDataset._find_best_feature",
+              "mokapot.dataset.OnDiskPsmDataset.find_best_feature"):
+        _best_feature_loop(ctx, prog.func(q))
 
 
 def _check_fit_alignment(ctx, fit):
